@@ -30,14 +30,14 @@ struct DensePrec { int n; std::vector<scalar> P; std::shared_ptr<hx::ACrs<scalar
     std::vector<scalar> mul(const std::vector<scalar> &v) const { std::vector<scalar> t(n); for (int i=0;i<n;++i) { scalar s=0; for (int j=0;j<n;++j) s+=P[i*n+j]*v[j]; t[i]=s; } return t; }
     const hx::ACrs<scalar> &system_matrix() const { return *A; } };
 
-struct Cfg { std::string solver; int maxiter; bool left; int M=2, L=2, s=2, K=1; bool flag=false; };
+struct Cfg { std::string solver; int maxiter; bool left; int M=2, L=2, s=2, K=1; bool flag=false; double delta=0; };
 template<class S> static void setp(typename S::params &p, const Cfg &c, scalar tol, scalar abstol) { p.maxiter=c.maxiter; p.tol=tol; p.abstol=abstol; }
 template<class S, class Prec> static std::tuple<size_t,scalar> solve(const Cfg &c, int n, scalar tol, scalar abstol, const hx::ACrs<scalar> &A, const Prec &P, const NV &f, NV &x);
 #define SOLVE_IMPL(NAME, EXTRA) \
   template<class Prec> static std::tuple<size_t,scalar> solve_##NAME(const Cfg &c, int n, scalar tol, scalar abstol, const hx::ACrs<scalar> &A, const Prec &P, const NV &f, NV &x) { typedef sv::NAME<BE> S; S::params p; p.maxiter=c.maxiter; p.tol=tol; p.abstol=abstol; EXTRA; S s(n,p); return s(A,P,f,x); }
 SOLVE_IMPL(cg, )
 SOLVE_IMPL(bicgstab, p.pside = c.left ? amgcl::preconditioner::side::left : amgcl::preconditioner::side::right)
-SOLVE_IMPL(bicgstabl, p.pside = c.left ? amgcl::preconditioner::side::left : amgcl::preconditioner::side::right; p.L=c.L; p.convex=c.flag)
+SOLVE_IMPL(bicgstabl, p.pside = c.left ? amgcl::preconditioner::side::left : amgcl::preconditioner::side::right; p.L=c.L; p.convex=c.flag; p.delta=scalar(c.delta))
 SOLVE_IMPL(gmres, p.pside = c.left ? amgcl::preconditioner::side::left : amgcl::preconditioner::side::right; p.M=c.M)
 SOLVE_IMPL(fgmres, p.M=c.M)
 SOLVE_IMPL(lgmres, p.pside = c.left ? amgcl::preconditioner::side::left : amgcl::preconditioner::side::right; p.M=c.M; p.K=c.K)
@@ -47,7 +47,7 @@ template<class Prec> static std::tuple<size_t,scalar> dispatch(const Cfg &c, int
     if (c.solver=="cg") return solve_cg(c,n,tol,abstol,A,P,f,x); if (c.solver=="bicgstab") return solve_bicgstab(c,n,tol,abstol,A,P,f,x); if (c.solver=="bicgstabl") return solve_bicgstabl(c,n,tol,abstol,A,P,f,x);
     if (c.solver=="gmres") return solve_gmres(c,n,tol,abstol,A,P,f,x); if (c.solver=="fgmres") return solve_fgmres(c,n,tol,abstol,A,P,f,x); if (c.solver=="lgmres") return solve_lgmres(c,n,tol,abstol,A,P,f,x);
     if (c.solver=="idrs") return solve_idrs(c,n,tol,abstol,A,P,f,x); return solve_richardson(c,n,tol,abstol,A,P,f,x); }
-static std::string cfgname(const Cfg &c) { std::string s=c.solver+"/k"+std::to_string(c.maxiter)+(c.left?"/left":"/right"); if (c.solver=="gmres"||c.solver=="fgmres"||c.solver=="lgmres") s+="/M"+std::to_string(c.M); if (c.solver=="lgmres") s+="K"+std::to_string(c.K); if (c.solver=="bicgstabl") s+="/L"+std::to_string(c.L)+(c.flag?"c":""); if (c.solver=="idrs") s+="/s"+std::to_string(c.s)+(c.flag?"sm":""); return s; }
+static std::string cfgname(const Cfg &c) { std::string s=c.solver+"/k"+std::to_string(c.maxiter)+(c.left?"/left":"/right"); if (c.solver=="gmres"||c.solver=="fgmres"||c.solver=="lgmres") s+="/M"+std::to_string(c.M); if (c.solver=="lgmres") s+="K"+std::to_string(c.K); if (c.solver=="bicgstabl") s+="/L"+std::to_string(c.L)+(c.flag?"c":"")+(c.delta>0?"/reliable":""); if (c.solver=="idrs") s+="/s"+std::to_string(c.s)+(c.flag?"sm":""); return s; }
 
 // the truthfulness obligation on the returned (iters, res, x)
 template<class ApplyP> static void truthful(const Cfg &c, const SCrs &A, const std::vector<scalar> &f, const std::vector<scalar> &x, size_t iters, scalar res_in, ApplyP applyP, bool zero_rhs_exit) {
@@ -72,6 +72,42 @@ static void mmode_case(const Cfg &c, const Pattern &p, int prec_kind, size_t max
         try { std::tie(it,res)=dispatch(c,n,scalar(0),scalar(0),*Am,P,F,X); } catch (const std::runtime_error &e) { threw=true; hx::count("breakdown exception paths (solver reported breakdown)"); }
         hx::cuts(false); if (threw) return;
         truthful(c,A,f,hx::to_vec(X),it,res,[&](const std::vector<scalar> &v){ return P.mul(v); }, false);
+    }, co);
+}
+// U-mode: concrete non-symmetric diagonally dominant matrix, concrete dense preconditioner, right-hand side and initial guess affine in ONE
+// parameter t; no cuts: every coefficient of the run is the true rational function of t, so deeper iteration counts stay tractable
+static void umode_case(const Cfg &c, int n, int prec_kind, hx::Rng &rng, size_t max_paths) {
+    hx::CaseOptions co; co.max_paths=max_paths; co.max_depth=160;
+    hx::run_case("U/"+cfgname(c)+"/"+(prec_kind?"denseP/":"noP/")+"n"+std::to_string(n), [&]() {
+        hx::Rng r2(rng.s ^ (uint64_t)(n*7919+c.maxiter*104729+prec_kind)); Pattern p=hx::dense_pattern(n,n); SCrs A=hx::ddmatrix(p,r2); auto Am=hx::to_amgcl(A); DensePrec P(n,Am,true);
+        if (prec_kind) for (int i=0;i<n;++i) for (int j=0;j<n;++j) P.P[i*n+j] = i==j ? scalar(1)/A.at(i,i) : scalar(((i*3+j)%5)-2)/scalar(32);
+        scalar t=var("t",0.375); std::vector<scalar> f, x0; for (int i=0;i<n;++i) { int q1=1+r2.below(5), q2=r2.below(7)-3, q3=r2.below(5)-2, q4=r2.below(5)-2; f.push_back(scalar(q1)/scalar(2)+t*scalar(q2)/scalar(4)); x0.push_back(scalar(q3)/scalar(4)+t*scalar(q4)/scalar(2)); }
+        NV F=hx::to_numa(f), X=hx::to_numa(x0); nonzero_rhs(f);
+        size_t it; scalar res; bool threw=false;
+        try { std::tie(it,res)=dispatch(c,n,scalar(0),scalar(0),*Am,P,F,X); } catch (const std::runtime_error &e) { threw=true; hx::count("breakdown exception paths (solver reported breakdown)"); }
+        if (threw) return;
+        truthful(c,A,f,hx::to_vec(X),it,res,[&](const std::vector<scalar> &v){ return P.mul(v); }, false);
+    }, co);
+}
+// BiCGStab(L) reliable updates (delta > 0): state invariant after k iterations, read from the solver object's work vectors:
+//   B is the true (preconditioned, for left) residual of the base solution  x_base = x - [P] X,  and R[0] = B - [op] X
+// (it holds after every iteration; with it the carried residual is the true residual at any later iteration, flushes and refreshes included)
+static void reliable_invariant_case(const Pattern &p, int k, bool left, double delta, int prec_kind) {
+    hx::CaseOptions co; co.max_paths=hx::thorough()?16:6; co.max_depth=120; co.budget_s=25;
+    hx::run_case(std::string("M/bicgstabl-reliable-invariant/k")+std::to_string(k)+(left?"/left":"/right")+"/delta"+(delta>1?"1000":"0.5")+(prec_kind?"/anyP/":"/noP/")+p.name, [&]() {
+        SCrs A=hx::symbolic_matrix(p,"a"); auto Am=hx::to_amgcl(A); int n=p.n; DensePrec P(n,Am,prec_kind==0);
+        std::vector<scalar> f=hx::sym_vector("f",n), x0=hx::sym_vector("x",n,0.25); NV F=hx::to_numa(f), X=hx::to_numa(x0); nonzero_rhs(f);
+        typedef sv::bicgstabl<BE> S; S::params prm; prm.maxiter=k; prm.tol=scalar(0); prm.abstol=scalar(0); prm.L=1; prm.delta=scalar(delta); prm.pside = left ? amgcl::preconditioner::side::left : amgcl::preconditioner::side::right; S s(n,prm);
+        hx::cuts(true); size_t it; scalar res; bool threw=false;
+        try { std::tie(it,res)=s(*Am,P,F,X); } catch (const std::runtime_error &e) { threw=true; hx::count("breakdown exception paths (solver reported breakdown)"); }
+        hx::cuts(false); if (threw) return;
+        std::vector<scalar> x=hx::to_vec(X), Xc=hx::to_vec(*s.X), B=hx::to_vec(*s.B), R0=hx::to_vec(*s.R[0]);
+        std::vector<scalar> corr = left ? Xc : P.mul(Xc), xb(n); for (int i=0;i<n;++i) xb[i]=x[i]-corr[i];
+        std::vector<scalar> Axb=hx::dense_mv(A,xb), tb(n); for (int i=0;i<n;++i) tb[i]=f[i]-Axb[i]; if (left) tb=P.mul(tb);
+        hx::prove_eq_vec("reliable update: reference right-hand side B = [P](f - A x_base) for the base solution the correction X refers to", B, tb);
+        std::vector<scalar> opX = left ? P.mul(hx::dense_mv(A,Xc)) : hx::dense_mv(A,P.mul(Xc)), tr(n); for (int i=0;i<n;++i) tr[i]=B[i]-opX[i];
+        bool flushed=true; for (auto &v : Xc) flushed=flushed&&hx::same_handle(v,scalar(0));
+        if (flushed || hx::thorough()) hx::prove_eq_vec("reliable update: carried residual R[0] = B - op X", R0, tr);   // with a pending X the two sides are equal but factored differently: left to the thorough tier hx::count(flushed ? "paths ending right after a flush of X into x" : "paths ending with a pending correction X");
     }, co);
 }
 // stopping rule with symbolic tolerances: leaving before maxiter implies carried norm below max(tol |f|, abstol)
@@ -121,8 +157,8 @@ int main(int argc, char **argv) {
         for (std::string s : {"bicgstab","gmres","lgmres","bicgstabl"}) { Cfg c; c.solver=s; c.maxiter=k; c.left=left; cfgs.push_back(c); if (s=="gmres"||s=="lgmres") { c.M=1; cfgs.push_back(c); } if (s=="bicgstabl") { c.L=1; cfgs.push_back(c); c.L=2; c.flag=true; cfgs.push_back(c); } }
     }
     if (!T) { std::vector<Cfg> keep; for (auto &c : cfgs) if (!(c.solver=="bicgstabl" && (c.L!=1 || c.maxiter>1))) keep.push_back(c); cfgs=keep; }
-    {
-    }
+    // BiCGStab(L) with reliable updates (delta > 0): the true-residual refresh and the flush of the partial solution into x
+    std::vector<Cfg> reliable; for (int k=2;k<=(T?4:3);++k) for (int left=0;left<(T?2:1);++left) { Cfg c; c.solver="bicgstabl"; c.L=1; c.maxiter=k; c.left=left; c.delta=1000; reliable.push_back(c); if (T && k<=3) { c.delta=0.5; reliable.push_back(c); } }
     Pattern p2=hx::dense_pattern(2,2), b3=hx::band_pattern(3,1), d3=hx::dense_pattern(3,3);
     auto heavy=[&](const Cfg &c) { return c.solver=="idrs" || c.solver=="bicgstabl" || c.solver=="lgmres"; };
     auto bl=[&](const Cfg &c) { return c.solver=="bicgstabl"; }; auto idk2=[&](const Cfg &c) { return c.solver=="idrs" && c.maxiter>=2 && c.s!=1; };
@@ -133,6 +169,8 @@ int main(int argc, char **argv) {
         if (c.maxiter==1 && !heavy(c)) mmode_case(c,b3,1,12);
         if (T) { if (c.maxiter<=3) mmode_case(c,b3,0,48); if (c.maxiter<=2) { mmode_case(c,d3,0,48); mmode_case(c,b3,1,48); } if (c.maxiter<=2 && !heavy(c)) mmode_case(c,d3,1,48); }
     }
+    for (int k=1;k<=(T?3:2);++k) for (int left=0;left<2;++left) for (double delta : {1000.0, 0.5}) { if (k==1 || T) reliable_invariant_case(p2,k,left,delta,1); if (T || (k==1 && delta>1) || (k==2 && !left && delta>1)) reliable_invariant_case(k==1?b3:p2,k,left,delta,0); }
+    if (T) for (auto &c : reliable) for (int n=2;n<=3;++n) umode_case(c,n,0,rng,8);
     for (auto &c : cfgs) if ((T && c.maxiter<=2) || (c.maxiter==1 && c.solver!="idrs")) stop_case(c,p2);
     for (auto &c : cfgs) if (c.maxiter<=(T?3:2) && (T || (!bl(c) && !idk2(c)))) { Pattern g=hx::grid_pattern(3,2); if (T || c.maxiter==1 || !c.left) amg_case<SA,SP>(c,g,rng,"sa-spai0"); if (T || (c.maxiter==1 && c.M==2 && !c.left)) { amg_case<AG,GS>(c,hx::grid_pattern(3,3),rng,"agg-gs"); amg_case<SA,DJ>(c,hx::band_pattern(7,1),rng,"sa-jacobi"); } }
     return hx::finish();
